@@ -8,6 +8,10 @@ import Gen.Persist
   Reals.  The format `'%f'` carries a sign, an integer part and exactly six fraction digits; a model
   value of type REAL is that decimal (`neg`, `micro` = millionths).  The conversion between Python's
   binary floats and decimal numerals (`'%f' % v`, `float(text)`) is NOT modelled.
+  GUARD: the non-finite doubles (inf, -inf, nan) are not values of the model at all -- `Val.real` can only hold a numeral --
+  and they are outside the persistable domain: the writers emit the bare words `inf` / `-inf` / `nan` for them, for which
+  the format has no token (the loader raises ParsingException).  The harness never sends such a metamodel to the model
+  (harness/prop_C01.py `model_line` refuses it explicitly) and counts what the implementation does with it (`nonfinite`).
 -/
 namespace Pyx.Sql
 open Gen.Persist (Ty Lit)
@@ -107,7 +111,9 @@ def uuidParse (content : Text) : Option Nat :=
 /-- six fraction digits from a digit text: padded with zeros, cut after the sixth -/
 def frac6 (ds : List Nat) : Nat := ofDigits ((ds ++ [0, 0, 0, 0, 0, 0]).take 6)
 
-/-- `float(value)` on a token text: `-`? digits (`.` digits)? -/
+/-- `float(value)` on a token text: `-`? digits (`.` digits)?  The digits are `\d` characters: `float('١٢.٥')` is 12.5,
+    so every digit counts with its Unicode value (`UC.dval`); fraction digits beyond the sixth are cut (a `Val.real` is a
+    six-decimal numeral) -/
 def parseReal (u : UC) (v : Text) : Option Val :=
   let (neg, body) := match v with
     | '-' :: r => (true, r)
@@ -115,11 +121,11 @@ def parseReal (u : UC) (v : Text) : Option Val :=
   let d1 := body.takeWhile u.isDigit
   if d1.isEmpty then none else
   match body.dropWhile u.isDigit with
-  | [] => some (.real neg (natOfText d1 * 1000000))
+  | [] => some (.real neg (u.natOf d1 * 1000000))
   | '.' :: r =>
     let d2 := r.takeWhile u.isDigit
     if d2.isEmpty then none
-    else if (r.dropWhile u.isDigit).isEmpty then some (.real neg (natOfText d1 * 1000000 + frac6 (d2.map digitVal)))
+    else if (r.dropWhile u.isDigit).isEmpty then some (.real neg (u.natOf d1 * 1000000 + frac6 (d2.map u.dval)))
     else none
   | _ => none
 
